@@ -252,3 +252,124 @@ def edit_distance(pinned: list[str], current: list[str]) -> int:
     removed = sum((a - b).values())
     added = sum((b - a).values())
     return max(removed, added)
+
+
+# ---------------------------------------------------------------------------------------------------------------------------------
+# Canonical equivalence: a function whose CANONICAL form equals the recorded canonical form differs from the recorded function only by
+# spellings that cannot change behaviour; the loader then analyses the recorded spelling (parsed from the recorded source) in its place.
+# The canonical form applies, besides the anonymisation of locals:
+#   not (a is b) → a is not b, not (a in b) → a not in b, not (a == b) → a != b (and the reverses);  constant-on-the-left comparisons flipped
+#   (1 == x → x == 1, 0 < n → n > 0);  operands of `*` ordered (exact for numbers, arrays and sequence repetition);  operands of `+` ordered only
+#   when one operand is a numeric constant or a product/quotient/power (numeric context — never for possible sequence/str concatenation);
+#   operands of `and`/`or` are NOT reordered (short-circuit);  np.newaxis → None;  range(0, n) → range(n);
+#   function form → method form for a fixed table of reductions / elementwise functions (np.sum(x, …) → x.sum(…), torch.abs(x) → x.abs(), …)
+#   and x ** 2 / np.square(x) → x.square();  `if not c: A else: B` → `if c: B else: A`.
+_TO_METHOD = {"sum", "mean", "abs", "sqrt", "exp", "conj", "angle", "square", "max", "min", "prod", "clip", "clamp", "round", "floor", "ceil", "flatten", "ravel", "reshape",
+              "argmax", "argmin", "argsort", "cumsum", "all", "any", "std", "var", "transpose", "squeeze", "unsqueeze"}
+_LIB_PREFIXES = ("np.", "numpy.", "torch.", "xp.", "cp.")
+
+
+def _dotted(n):
+    parts = []
+    while isinstance(n, ast.Attribute):
+        parts.append(n.attr)
+        n = n.value
+    if isinstance(n, ast.Name):
+        parts.append(n.id)
+        return ".".join(reversed(parts))
+    return None
+
+
+class _Canon(ast.NodeTransformer):
+    def visit_UnaryOp(self, n):
+        self.generic_visit(n)
+        if isinstance(n.op, ast.Not) and isinstance(n.operand, ast.Compare) and len(n.operand.ops) == 1:
+            flip = {ast.Is: ast.IsNot, ast.IsNot: ast.Is, ast.In: ast.NotIn, ast.NotIn: ast.In, ast.Eq: ast.NotEq, ast.NotEq: ast.Eq}
+            t = type(n.operand.ops[0])
+            if t in flip:
+                return ast.Compare(left=n.operand.left, ops=[flip[t]()], comparators=n.operand.comparators)
+        return n
+
+    def visit_Compare(self, n):
+        self.generic_visit(n)
+        if len(n.ops) == 1 and isinstance(n.left, ast.Constant) and not isinstance(n.comparators[0], ast.Constant):
+            mirror = {ast.Eq: ast.Eq, ast.NotEq: ast.NotEq, ast.Lt: ast.Gt, ast.Gt: ast.Lt, ast.LtE: ast.GtE, ast.GtE: ast.LtE}
+            t = type(n.ops[0])
+            if t in mirror:
+                return ast.Compare(left=n.comparators[0], ops=[mirror[t]()], comparators=[n.left])
+        return n
+
+    @staticmethod
+    def _numericish(e):
+        return (isinstance(e, ast.Constant) and isinstance(e.value, (int, float, complex)) and not isinstance(e.value, bool)) or \
+            (isinstance(e, ast.BinOp) and isinstance(e.op, (ast.Mult, ast.Div, ast.Pow, ast.FloorDiv, ast.Mod))) or \
+            (isinstance(e, ast.UnaryOp) and isinstance(e.op, ast.USub))
+
+    def visit_BinOp(self, n):
+        self.generic_visit(n)
+        if isinstance(n.op, ast.Pow) and isinstance(n.right, ast.Constant) and n.right.value == 2 and isinstance(n.right.value, int):
+            return ast.Call(func=ast.Attribute(value=n.left, attr="square", ctx=ast.Load()), args=[], keywords=[])
+        if isinstance(n.op, ast.Mult) or (isinstance(n.op, ast.Add) and (self._numericish(n.left) or self._numericish(n.right))
+                                          and not any(isinstance(x, (ast.List, ast.Tuple, ast.JoinedStr)) or (isinstance(x, ast.Constant) and isinstance(x.value, (str, bytes)))
+                                                      for x in (n.left, n.right))):
+            a, b = ast.dump(n.left), ast.dump(n.right)
+            if b < a:
+                n.left, n.right = n.right, n.left
+        return n
+
+    def visit_Attribute(self, n):
+        self.generic_visit(n)
+        if n.attr == "newaxis" and isinstance(n.value, ast.Name) and n.value.id in ("np", "numpy", "torch", "xp"):
+            return ast.Constant(value=None)
+        return n
+
+    def visit_Call(self, n):
+        self.generic_visit(n)
+        d = _dotted(n.func)
+        if d == "range" and len(n.args) == 2 and isinstance(n.args[0], ast.Constant) and n.args[0].value == 0 and not n.keywords:
+            n.args = n.args[1:]
+        if d and d.startswith(_LIB_PREFIXES) and d.count(".") == 1 and d.split(".")[1] in _TO_METHOD and n.args \
+                and not isinstance(n.args[0], (ast.List, ast.Tuple, ast.ListComp, ast.GeneratorExp, ast.Constant)):
+            return ast.Call(func=ast.Attribute(value=n.args[0], attr=d.split(".")[1], ctx=ast.Load()), args=n.args[1:], keywords=n.keywords)
+        return n
+
+    def visit_If(self, n):
+        self.generic_visit(n)
+        if isinstance(n.test, ast.UnaryOp) and isinstance(n.test.op, ast.Not) and n.orelse and not (len(n.orelse) == 1 and isinstance(n.orelse[0], ast.If)):
+            n.test, n.body, n.orelse = n.test.operand, n.orelse, n.body
+        return n
+
+
+def canon_digest(fn: ast.AST) -> str:
+    import copy
+    c = _Canon().visit(copy.deepcopy(fn))
+    ast.fix_missing_locations(c)
+    return shape_of(c)[0]
+
+
+def canonicalise_module(modname: str, tree: ast.AST) -> list[str]:
+    """Replace, in place, every recorded function whose canonical form equals the recorded canonical form (but whose syntax differs) by the
+    recorded function (parsed from the recorded source; line numbers shifted to the current position)."""
+    if os.environ.get("QV_NO_CANON"):
+        return []
+    table = pinned_table()
+    done = []
+
+    def visit(owner, prefix):
+        body = getattr(owner, "body", [])
+        for i, ch in enumerate(body):
+            if isinstance(ch, (ast.FunctionDef, ast.AsyncFunctionDef)):
+                q = ".".join(prefix + (ch.name,))
+                e = table.get(f"{modname}:{q}")
+                if e and "canon" in e and "src" in e:
+                    if shape_of(ch)[0] != e["digest"] and canon_digest(ch) == e["canon"]:
+                        new = ast.parse(e["src"]).body[0]
+                        ast.increment_lineno(new, ch.lineno - 1)
+                        body[i] = new
+                        done.append(q)
+            elif isinstance(ch, ast.ClassDef):
+                visit(ch, prefix + (ch.name,))
+            elif isinstance(ch, (ast.If, ast.Try, ast.With)):
+                visit(ch, prefix)
+    visit(tree, ())
+    return done
